@@ -13,6 +13,7 @@ CONSTANTS
   HydCounts = {1, 2, 10}
   ChargeToks <- Q_Few
   PrefixSet = {}
+  MaxPrefixes = 1
   SuffixSet = {"(s)"}
   PrimeMarks = {}
   MaxPrimes = 0
